@@ -138,13 +138,18 @@ func extractMethodsFromNamedType(named *types.Named) []TypeMethod {
 	ptrType := types.NewPointer(named)
 	methodSet := types.NewMethodSet(ptrType)
 
+	// Method set of the value T: a method missing from it needs a pointer receiver.
+	// The declared receiver alone does not tell: a method promoted through an
+	// embedded *E belongs to T's method set whatever its receiver is
+	valueMethodSet := types.NewMethodSet(named)
+
 	for i := 0; i < methodSet.Len(); i++ {
 		selection := methodSet.At(i)
 		method := selection.Obj().(*types.Func)
 		sig := method.Type().(*types.Signature)
 
-		// Determine if receiver is pointer
-		recvIsPointer := isPointerReceiver(sig.Recv().Type())
+		// Determine if the method is only available on the pointer
+		recvIsPointer := valueMethodSet.Lookup(method.Pkg(), method.Name()) == nil
 
 		methods = append(methods, TypeMethod{
 			Name:              method.Name(),
